@@ -93,6 +93,11 @@ def rand_template(rnd, nargs):
     parts.append(" FROM dual")
     if rnd.random() < 0.2:
         parts.append(" " + rnd.choice(SEGMENTS[2:5]))
+    elif rnd.random() < 0.1:
+        # a template that ENDS inside a comment or literal (the lexer stops in the middle of a state): it is rendered like any
+        # other, and whatever it leaves behind must not reach the next call (all calls of a run share one process)
+        parts.append(" " + rnd.choice(["/* a", "/* a /* b", "/* see /* the /* notes */", "/* /* /* /* x */", "-- $1 to the end", "'open $1",
+                                       "\"open $2", "e'open \\", "/* a */ /* b /* c", "/*/*/*"]))
     return "".join(parts)
 
 
@@ -112,14 +117,34 @@ def explore(chk, rnd, tier):
         cases.append((t, args))
     gos = run_go([{"op": "sanitize", "text": t, "args": [a[1] for a in args]} for t, args in cases])
     leans = run_lean([{"op": "sanitize", "text": t, "args": [a[2] for a in args]} for t, args in cases])
+    nt_hist = []
     for (t, args), g, l in zip(cases, gos, leans):
         chk.count("sanitize:" + str(g.get("r")))
         if g.get("r") in ("panic", "crash", "hang"):
             chk.add_violation("sanitize-panic", {"template": t, "args": [a[1] for a in args], "impl": g})
             break
         if g.get("r") != l.get("r") or (g.get("r") == "ok" and g.get("v") != l.get("v")):
-            chk.add_violation("sanitize-model-vs-impl", {"template": t, "args": [a[1] for a in args], "impl": g, "model": l})
+            detail = {"template": t, "args": [a[1] for a in args], "impl": g, "model": l}
+            # does the call fail on its own? if not, the failure depends on the calls made before it in the same process:
+            # find a short history (the calls just before it) that reproduces it, and make that the replay
+            i = len(nt_hist)
+            req = lambda c: {"op": "sanitize", "text": c[0], "args": [a[1] for a in c[1]]}
+            alone = run_go([req((t, args))])[0]
+            if alone.get("r") == l.get("r") and (alone.get("r") != "ok" or alone.get("v") == l.get("v")):
+                k = 1
+                while k <= len(nt_hist):
+                    hist = nt_hist[-k:]
+                    again = run_go([req(c) for c in hist] + [req((t, args))])[-1]
+                    if again.get("r") != l.get("r") or (again.get("r") == "ok" and again.get("v") != l.get("v")):
+                        detail["history_dependent"] = True
+                        detail["history"] = [req(c) for c in hist]
+                        break
+                    k *= 2
+                else:
+                    detail["history_dependent"] = True
+            chk.add_violation("sanitize-model-vs-impl", detail)
             break
+        nt_hist.append((t, args))
         if any(special(a[0]) for a in args):
             nt.add(t + canon([a[1] for a in args]))
     # ---------- (b) the real parser + engine as oracle
